@@ -142,6 +142,22 @@ Theorem C20_pct_mean0 : forall x N, (0 < N)%nat -> ~ cnorm2 (cmean x N) == 0 ->
 Proof. exact pct_mean0. Qed.
 Print Assumptions C20_zscore_mean0_var1.
 
+(* ================================================================= "along the chosen axis" *)
+(* an n-d array with a chosen axis is (outer, N, inner) in row-major order; entry (o,t,i) of the
+   array assembled from per-lane results is entry t of the result of lane (o,i), and the lanes are
+   a decomposition of the array (taking all lanes and laying them out again is the identity): the
+   per-lane theorems above therefore hold along any axis of 1..3 (any number of) dimensions *)
+Theorem C20_along_nth : forall outer M inner g o t i, (o < outer)%nat -> (t < M)%nat -> (i < inner)%nat ->
+  nth ((o * M + t) * inner + i) (along outer M inner g) c0 = nth t (g o i) c0.
+Proof. exact along_nth. Qed.
+Theorem C20_lanes_decompose : forall d outer N inner, length d = (outer * (N * inner))%nat ->
+  forall o t i, (o < outer)%nat -> (t < N)%nat -> (i < inner)%nat ->
+  nth ((o * N + t) * inner + i) (along outer N inner (fun o i => lane_list d N inner o i)) c0 =
+  nth ((o * N + t) * inner + i) d c0.
+Proof. exact along_lanes_id. Qed.
+Theorem C20_along_length : forall outer M inner g, length (along outer M inner g) = (outer * (M * inner))%nat.
+Proof. exact along_length. Qed.
+
 (* ================================================================= correlation spectrum *)
 (* given Plancherel's identity for the library FFT, the n numerators sum to n * sum x1 x2: the
    spectrum sums to the correlation coefficient; the returned half carries it after folding *)
@@ -177,6 +193,16 @@ Open Scope R_scope.
 (* entropyR X is the coded sum over itertools.product of the symbol sets with the `p > 0` guard,
    with the real log2; X = list of variables.  Guards: at least one variable, all of one length
    n > 0 (the implementation raises otherwise). *)
+
+(* the coded histogram (cells of the product of the symbol sets, empty cells guarded by `p > 0`)
+   computes the entropy of the definition, here in its sample-average form
+   Hs l = (1/n) sum_{t in l} -log2 (count(t)/n)  ( = -sum_a p_a log2 p_a over the distinct values ) *)
+Theorem C20_entropy_is_definition : forall x y, x <> [] -> length x = length y ->
+  entropyR [x] = Hs dZ x /\ entropyR [x; y] = Hs dZZ (combine x y).
+Proof. intros x y H L. split; [apply entropyR1; exact H|apply entropyR2; assumption]. Qed.
+Theorem C20_entropy_sample_form_is_cell_sum : forall (cells l : list Z), l <> [] -> NoDup cells -> incl l cells ->
+  Hcells dZ (length l) cells l = Hs dZ l.
+Proof. intros cells l. apply Hcells_Hs. Qed.
 
 (* entropies (any number of variables) are non-negative and at most log2 of the product of the
    alphabet sizes *)
@@ -234,12 +260,26 @@ Proof.
 Qed.
 Print Assumptions C20_perm_invariant.
 
-(* NOT PROVED (full statement kept): conditioning on a further variable never increases entropy,
-     forall x y lag, x <> [] -> length x = length y -> 0 <= teR x y lag
-   (transfer_entropy = H(F|P) - H(F|P,Pj) >= 0, a conditional mutual information).  The pairwise
-   case H(X|Y) <= H(X) is C20_conditioning_reduces; the three-variable case needs the
-   marginalisation sum_f count(p,f) = count(p) over the coded rows and is carried only by the
-   exact oracle of the harness (transfer entropy >= -1e-9 on every generated case). *)
+(* conditioning on a further variable never increases entropy either: the transfer entropy
+   H(F|P) - H(F|P,Pj) (F = np.roll(x,-lag), P = x, Pj = y) is a conditional mutual information
+   and is non-negative for every lag *)
+Theorem C20_transfer_entropy_nonneg : forall x y lag, x <> [] -> length x = length y -> 0 <= teR x y lag.
+Proof. exact transfer_entropy_nonneg. Qed.
+Print Assumptions C20_transfer_entropy_nonneg.
+
+(* conditional entropy and transfer entropy inherit the invariances (transfer entropy only the
+   relabelling: the time order enters through np.roll, it is not a function of the sample multiset) *)
+Theorem C20_cond_invariant : forall f g x y x' y',
+  (forall a b : Z, f a = f b -> a = b) -> (forall a b : Z, g a = g b -> a = b) ->
+  x <> [] -> length x = length y -> length x' = length y' -> Permutation (combine x y) (combine x' y') ->
+  condR (map f x) (map g y) = condR x y /\ condR x y = condR x' y'.
+Proof.
+  intros f g x y x' y' Hf Hg H L L' P. split; [apply cond_relabel_invariant|apply cond_perm_invariant]; assumption.
+Qed.
+Theorem C20_te_relabel_invariant : forall f g x y lag,
+  (forall a b : Z, f a = f b -> a = b) -> (forall a b : Z, g a = g b -> a = b) ->
+  x <> [] -> length x = length y -> teR (map f x) (map g y) lag = teR x y lag.
+Proof. exact te_relabel_invariant. Qed.
 
 (* ================================================================= non-vacuity (part 2) *)
 Example C20_entropy_example_guards :
